@@ -29,17 +29,29 @@ func Parse(text []byte) (out ParseOut) {
 			out.Panic = p
 		}
 	}()
-	var before []byte
-	if len(text) <= 4096 {
-		before = append(before, text...)
+	if len(text) > 4096 {
+		out.Src, out.Err = formula.ParseSourceCode(text)
+		return
 	}
-	out.Src, out.Err = formula.ParseSourceCode(text)
-	if before != nil && string(before) != string(text) {
+	// the library gets the text as a slice of a larger buffer, the way a
+	// line cut out of a file arrives: the bytes around it are not its own
+	buf := make([]byte, 0, len(parseGuard)*2+len(text))
+	buf = append(buf, parseGuard...)
+	buf = append(buf, text...)
+	buf = append(buf, parseGuard...)
+	in := buf[len(parseGuard) : len(parseGuard)+len(text)]
+	out.Src, out.Err = formula.ParseSourceCode(in)
+	if string(in) != string(text) {
 		// the text is the caller's: parsing reads it
-		out.Panic = fmt.Sprintf("ParseSourceCode modified the text it was given: %q became %q", before, text)
+		out.Panic = fmt.Sprintf("ParseSourceCode modified the text it was given: %q became %q", text, in)
+	} else if string(buf[:len(parseGuard)]) != parseGuard || string(buf[len(parseGuard)+len(text):]) != parseGuard {
+		out.Panic = fmt.Sprintf("ParseSourceCode of %q wrote outside the text it was given: the bytes around it in the caller's buffer became %q and %q, were %q", text, buf[:len(parseGuard)], buf[len(parseGuard)+len(text):], parseGuard)
 	}
 	return
 }
+
+// parseGuard surrounds the text handed to the library in Parse.
+const parseGuard = " + 1 ) ] ' "
 
 // OK reports an accepted parse.
 func (p ParseOut) OK() bool { return p.Panic == nil && p.Err == nil && p.Src != nil }
